@@ -910,7 +910,14 @@ class EvolveAppTask(BaseEvolutionTask):
                     #
                     # There's not much we can do to share this logic between
                     # here and prepare().
-                    if batch_task._evolutions:
+                    if batch_task.app_sig_is_new:
+                        # The app is being installed for the first time. Its
+                        # models are created from their current definitions,
+                        # and its evolutions are only recorded as applied.
+                        # None of them (including SQL evolutions, which
+                        # can't be filtered by model) must be executed.
+                        pending_mutations = []
+                    elif batch_task._evolutions:
                         # Custom evolutions were passed to the task. Build the
                         # list of mutations for all evolutions in this task
                         # in the correct order.
